@@ -302,7 +302,26 @@ def fmt(ctx):
         body = re.sub(r'%% %s$' % re.escape(v), '% v', body)
         tpl = [t for t in TEMPLATES if t[0] == body]
         if not tpl:
+            # other numeric conversions: their language is known, the inclusion test below decides
+            m_ = re.match(r"^'%(\.([0-9]+))?([difeEgGsr])' % (v|int\(v\)|float\(v\)|str\(v\))$", body) or \
+                (re.match(r"^(str|repr)\(v\)$", body) and re.match(r"^'%()()(s)' % (v)$", "'%s' % v"))
+            if m_:
+                conv_, prec = m_.group(3), m_.group(2)
+                if conv_ in 'di':
+                    tpl = [(body, r'-?[0-9]+', 'decimal integer')]
+                elif conv_ == 'f':
+                    if prec is None:
+                        tpl = [(body, r'-?[0-9]+\.[0-9]{6}', 'fixed six decimals')]
+                    else:
+                        tpl = [(body, r'-?[0-9]+' + (r'\.[0-9]{%d}' % int(prec) if prec != '0' else ''), 'fixed %s decimals' % prec)]
+                else:
+                    tpl = [(body, r'-?([0-9]+(\.[0-9]+)?(e[-+]?[0-9]+)?|inf|nan)', 'shortest / exponent notation (%%%s)' % conv_)]
+        if not tpl:
             raise AnalysisError('%s: writer template `%s` for %s is not one of the understood idioms' % (loc(lam), src(lam.body), ty))
+        if ty == 'REAL':
+            r.check(tpl[0][1] == r'-?[0-9]+\.[0-9]{6}', 'REAL is written with the six decimals the format carries', lam, construct=P + 'serialize_value',
+                    key='real-precision', msg='REAL values are written as %s (`%s`): the format carries six decimals; values with more significant '
+                                              'digits come back changed' % (tpl[0][2], src(lam.body)))
         wre = tpl[0][1]
         seqs, conv = READER_BRANCH[ty]
         for s in seqs:
